@@ -73,6 +73,13 @@ fn alpha(cfg: &Cfg) -> Vec<Op> {
     v.push(c(Vpa(Some(rows + 1))));
     v.push(c(DecSet(vec![6])));
     v.push(c(DecRst(vec![6])));
+    // the only way to park the cursor outside the region with origin mode on:
+    // save it there while the region is still the full screen, shrink the region, restore
+    v.push(c(Decsc));
+    v.push(c(Decrc));
+    v.push(c(Seq(vec![DecSet(vec![6]), Cup(Some(99), Some(2)), Decsc, Decstbm(Some(1), Some(rows.saturating_sub(1))), Decrc])));
+    v.push(c(Seq(vec![DecSet(vec![6]), Cup(Some(1), Some(2)), Decsc, Decstbm(Some(2), Some(rows)), Decrc])));
+    v.push(c(Seq(vec![Cup(Some(99), Some(1)), Decsc, Decstbm(Some(1), Some(rows.saturating_sub(1))), Decrc])));
     // margin pairs, valid and invalid
     for (a, b) in [
         (None, None),
